@@ -418,6 +418,14 @@ pub fn scen_prop_hist(ctx: &Ctx) -> i32 {
         }
         seqs.push(gen_history(&mut r, &p));
     }
+    if prop == "C14" {
+        // bulk calls over groups of different keys with one and the same 64-bit hash
+        let mut crng = Rng::new(ctx.seed ^ fnv("collide-bulk"));
+        for i in 0..(if ctx.tier_thorough { 40 } else { 8 }) {
+            let mut r = crng.fork(i as u64);
+            seqs.push(gen_collide_bulk(&mut r, if i % 2 == 0 { Kt::Bytes } else { Kt::Str }));
+        }
+    }
     if matches!(prop, "C01" | "C05") {
         // keys with one and the same 64-bit hash
         let mut crng = Rng::new(ctx.seed ^ fnv("collide"));
@@ -1016,7 +1024,85 @@ pub fn scen_multi(ctx: &Ctx) -> i32 {
             cands.push(obj(&[("key", esc(&key)), ("detail", esc(&what)), ("replay", esc(&path.to_string_lossy()))]));
         }
     }
+    // all handles of one map are one state, also for flush / is_dirty: an update through one handle must be made
+    // durable by a flush through another one
+    for (what, res) in handle_witnesses(ctx) {
+        if let Some(problem) = res {
+            if b.failures.len() < 5 {
+                let path = ctx.replays.join(format!("C11-oracle-handles-{:016x}.txt", fnv(&what)));
+                let _ = std::fs::write(&path, format!("# property=C11 facet=oracle\n# {}\n# {}\n", what, problem));
+                b.failures.push(Failure { facet: "oracle".into(), replay: path.to_string_lossy().to_string(), detail: format!("{}: {}", what, problem) });
+            }
+        }
+        b.sequences += 1;
+    }
     finish(ctx, "multi", &b, vec![("candidates", arr(&cands))])
+}
+
+/// C11, second sentence, for the calls that are not reads or updates: for each way of getting a second handle
+/// (clone of the map handle, repeated lookup, lookup through a cloned database handle): put + flush through
+/// handle A, put through handle B, then `is_dirty` must agree on both, a flush through A must succeed, and a
+/// copy of the directory taken right after it must hold B's update.
+pub fn handle_witnesses(ctx: &Ctx) -> Vec<(String, Option<String>)> {
+    use abyssiniandb::{DbXxx, DbXxxBase};
+    let mut out = Vec::new();
+    for how in ["clone of the map handle", "repeated lookup", "lookup through a cloned database handle"] {
+        for sync in ["flush", "sync_all", "sync_data"] {
+            let d = fresh_dir(&ctx.scratch, &format!("handles_{}_{}", fnv(how) % 1000, sync));
+            let dd = d.clone();
+            let r = std::thread::spawn(move || {
+                std::panic::catch_unwind(|| -> Option<String> {
+                    let db = abyssiniandb::open_file(&dd).ok()?;
+                    let mut a = db.db_map_string("m").ok()?;
+                    if a.put("k1", b"v1").is_err() || a.flush().is_err() {
+                        return Some("put / flush through the first handle failed".into());
+                    }
+                    let mut b = match how {
+                        "clone of the map handle" => a.clone(),
+                        "repeated lookup" => db.db_map_string("m").ok()?,
+                        _ => db.clone().db_map_string("m").ok()?,
+                    };
+                    if b.put("k2", b"v2").is_err() {
+                        return Some("put through the second handle failed".into());
+                    }
+                    if a.is_dirty() != b.is_dirty() {
+                        return Some(format!("is_dirty() is {} through the first handle and {} through the second", a.is_dirty(), b.is_dirty()));
+                    }
+                    let ok = match sync {
+                        "flush" => a.flush().is_ok(),
+                        "sync_all" => a.sync_all().is_ok(),
+                        _ => a.sync_data().is_ok(),
+                    };
+                    if !ok {
+                        return Some(format!("{} through the first handle failed", sync));
+                    }
+                    // what is on disk right now
+                    let snap = dd.with_extension("snap");
+                    let _ = std::fs::remove_dir_all(&snap);
+                    let _ = std::fs::create_dir_all(&snap);
+                    for e in ["htx", "key", "val"] {
+                        let _ = std::fs::copy(dd.join(format!("m.{}", e)), snap.join(format!("m.{}", e)));
+                    }
+                    let seen = {
+                        let db2 = abyssiniandb::open_file(&snap).ok()?;
+                        let mut m2 = db2.db_map_string("m").ok()?;
+                        (m2.get("k2").ok().flatten(), m2.len().ok())
+                    };
+                    let _ = std::fs::remove_dir_all(&snap);
+                    if seen != (Some(b"v2".to_vec()), Some(2)) {
+                        return Some(format!("after {} through the first handle the files hold get(k2) = {:?}, len = {:?} (expected Some(v2), 2)", sync, seen.0.map(|v| String::from_utf8_lossy(&v).to_string()), seen.1));
+                    }
+                    None
+                })
+                .unwrap_or_else(|_| Some("a call panicked".into()))
+            })
+            .join()
+            .unwrap_or_else(|_| Some("a call panicked".into()));
+            let _ = std::fs::remove_dir_all(&d);
+            out.push((format!("second handle = {}; put + flush through A, put through B, {} through A", how, sync), r));
+        }
+    }
+    out
 }
 
 /// C11 witnesses run against the real crate in a thread (a refusal may be a panic):
@@ -2211,6 +2297,49 @@ pub fn scen_sig(ctx: &Ctx) -> i32 {
         };
         for b in Kt::ALL {
             attempt(b, "-", 0, 0, &mut evaluations, &mut failures, &mut known, &mut samples);
+        }
+        // one of the three files replaced as a whole by something that does not start with its signature: another file
+        // of the same map, a foreign 16-byte signature followed by zeros, a blank file (judged without the model)
+        {
+            let names = ["htx", "key", "val"];
+            let mut repl: Vec<(usize, String, Vec<u8>)> = Vec::new();
+            for t in 0..3 {
+                for s_ in 0..3 {
+                    if s_ != t {
+                        repl.push((t, format!("the .{} file replaced by a copy of the .{} file", names[t], names[s_]), orig[s_].clone()));
+                    }
+                }
+                let mut foreign = b"FOREIGNSIGNATURE".to_vec();
+                foreign.resize(orig[t].len().max(64), 0);
+                repl.push((t, format!("the .{} file replaced by a foreign 16-byte signature followed by zeros", names[t]), foreign));
+                repl.push((t, format!("the .{} file replaced by {} zero bytes", names[t], orig[t].len()), vec![0u8; orig[t].len()]));
+            }
+            for (t, what, content) in repl {
+                let dir = fresh_dir(&ctx.scratch, "sig_try_file");
+                let mut files = orig.clone();
+                files[t] = content;
+                for (i, e) in names.iter().enumerate() {
+                    let _ = std::fs::write(dir.join(format!("m0.{}", e)), &files[i]);
+                }
+                let got = try_open(&dir, a);
+                let after = read_three(&dir);
+                evaluations += 1;
+                let desc = format!("create as {} ({} entries), {}, open as {}", a.name(), entries, what, a.name());
+                let mut problem = None;
+                if got.starts_with("accept") {
+                    problem = Some(format!("{}: opened without complaint ({})", desc, got));
+                } else if after != files {
+                    problem = Some(format!("{}: the rejected open changed the files", desc));
+                }
+                if let Some(p) = problem {
+                    if failures.len() < 3 {
+                        let path = ctx.replays.join(format!("{}-oracle-{:016x}.txt", ctx.prop, fnv(&p)));
+                        let _ = std::fs::write(&path, format!("# property={} facet=oracle\n# {}\n# replay: create map m0 as `{}` with {} entries, close; {}; open as `{}`\n", ctx.prop, p, a.name(), entries, what, a.name()));
+                        failures.push(Failure { facet: "oracle".into(), replay: path.to_string_lossy().to_string(), detail: p });
+                    }
+                }
+                let _ = std::fs::remove_dir_all(&dir);
+            }
         }
         for file in ["htx", "key", "val"] {
             let fi = ["htx", "key", "val"].iter().position(|e| *e == file).unwrap();
